@@ -76,7 +76,7 @@ impl Prop for C09 {
 
     fn strategy(_leg: &str, tier: Tier) -> BoxedStrategy<Case> {
         prop_oneof![
-            3 => gen::digraph_labeled(tier.pick(14, 60)).prop_map(|(g, family)| Case::Contiguous { g, family }),
+            3 => gen::digraph_labeled_big(tier.pick(14, 60)).prop_map(|(g, family)| Case::Contiguous { g, family }),
             1 => gen::map_digraph().prop_map(|g| Case::Map { g }),
         ]
         .boxed()
